@@ -299,7 +299,8 @@ fn parse_at_rule(
                             ss.append_token(st, input, Some(peek.token.clone()));
                             match xs {
                                 "layer" => {
-                                    convert_class_names_and_rpx_in_block(input, ss);
+                                    // a layer name such as `a.b` contains no class selector
+                                    convert_rpx_in_block(input, ss, None);
                                 }
                                 "supports" => {
                                     let st =
